@@ -29,6 +29,8 @@ type Cfg struct {
 	Burn      int      `json:"burn_count"`                   // Meta.BurnCount as configured (the engine always burns one card)
 	PosFlip   bool     `json:"positions_reversed,omitempty"` // list a seat's positions in reverse order
 	Reuse     int      `json:"reuse,omitempty"`              // 1: the game object played part of another hand before (ApplyOptions), 2: ... and got this hand via LoadState
+	Prev      *Cfg     `json:"previous_hand,omitempty"`
+	PrevSteps int      `json:"previous_hand_steps,omitempty"`
 }
 
 func rnd63(r *rand.Rand, n int64) int64 {
@@ -132,6 +134,7 @@ type GenOpts struct {
 	ForceNoLim   bool
 	MinSeats     int
 	ShowdownBias bool // more callers, antes and >=5 seats
+	noReuse      bool
 }
 
 func shuffledDeck(r *rand.Rand, short bool) []string {
@@ -264,6 +267,15 @@ func genCfg(r *rand.Rand, g GenOpts) *Cfg {
 				}
 			}
 		}
+	}
+	if !g.noReuse && r.Intn(8) == 0 {
+		// the game object has a past: it played part of another hand (other seats, other button) before
+		gg := g
+		gg.noReuse = true
+		c.Reuse = 1 + r.Intn(2)
+		c.Prev = genCfg(r, gg)
+		c.Prev.Noise = false
+		c.PrevSteps = r.Intn(16)
 	}
 	c.Burn = 1
 	if r.Intn(6) == 0 {
